@@ -751,7 +751,10 @@ def new_value(target: Dict[str, Any], old: Any, vclass: str, n: int) -> Tuple[bo
             return False, None
         return True, ("enum", members[(members.index(old) + 1 + n) % len(members)].name)
     if isinstance(old, int):
-        return True, [old + 1, old + 2, 1234567 + old, old + 3][n % 4]
+        # (no huge values for positions and sizes: a constant at byte 1234567 makes the library build a prefix tree
+        # of that depth per database, which only measures the memory of the machine)
+        big = 257 if name.endswith(("position", "length", "size", "_pos")) else 1234567
+        return True, [old + 1, old + 2, big + old, old + 3][n % 4]
     if isinstance(old, float):
         # also values that need many significant digits or are very small / large
         return True, [old + 0.5, old + 0.123456789012, 1234567.0 + old, 0.0009765625 + old][n % 4]
@@ -1444,6 +1447,13 @@ def execute(trace: Dict[str, Any]) -> Dict[str, Any]:
                                 "detail": {"path": path_str(path), "first": va, "second": vb,
                                            "index_pos": trace["index_pos"]}})
                         b0, b1, b2 = behaviour(db0), behaviour(db1), behaviour(db2)
+                        if len(b0) == len(b1) == len(b2):
+                            # a sample that ran out of memory in one of the three databases says nothing about the
+                            # round trip (the worker's address space is limited): it is dropped from all three
+                            keep = [i for i in range(len(b0)) if not any("MemoryError" in str(b[i][-2:]) for b in (b0, b1, b2))]
+                            if len(keep) != len(b0):
+                                probes["behaviour_sample_out_of_memory_not_judged"] = len(b0) - len(keep)
+                                b0, b1, b2 = [b0[i] for i in keep], [b1[i] for i in keep], [b2[i] for i in keep]
                         if not (b0 == b1 == b2):
                             k = next(i for i in range(min(len(b0), len(b1), len(b2)))
                                      if not (b0[i] == b1[i] == b2[i])) if len(b0) == len(b1) == len(b2) else -1
